@@ -9,6 +9,39 @@
 import PrologVerif.Proofs.LexerSpec
 import PrologVerif.Proofs.ReadBack
 import PrologVerif.Proofs.CanonRoundtrip
+namespace PrologVerif.C06Example
+open PrologVerif PrologVerif.Lexer PrologVerif.Write
+
+/-- an environment meeting `EnvOK`: variables `_a`, `_aa`, …; the float 1.5 with its 'g' text -/
+def exEnv : Env := ⟨Cfg.ascii, fun _ => ['1', '.', '5'], fun v => '_' :: List.replicate (v + 1) 'a'⟩
+def exG : UInt64 → GText := fun _ => ⟨false, ['1'], ['5'], none⟩
+def exP : UInt64 → Bool := fun b => b == 0x3FF8000000000000
+
+theorem exEnv_ok : EnvOK exEnv exG exP where
+  conv := fun _ => rfl
+  varShape := fun v => ⟨⟨List.replicate (v + 1) 'a', rfl, by
+    intro x hx
+    rw [List.mem_replicate] at hx
+    rw [hx.2]; rfl⟩, by simp [exEnv]⟩
+  varInj := by
+    intro v w h
+    have := congrArg List.length h
+    simp [exEnv] at this
+    exact this
+  fltWF := by
+    intro b _
+    refine ⟨by simp [exG], ?_, ?_, by simp [exG]⟩
+    · intro d hd; simp [exG] at hd; subst hd; exact ⟨1, by decide, rfl⟩
+    · intro d hd; simp [exG] at hd; subst hd; exact ⟨5, by decide, rfl⟩
+  fltText := fun _ _ => rfl
+  fltLaw := by
+    intro b hb
+    have hb' : b = 0x3FF8000000000000 := by simpa [exP] using hb
+    subst hb'
+    decide +kernel
+
+end PrologVerif.C06Example
+
 namespace PrologVerif.C06
 open PrologVerif PrologVerif.Lexer PrologVerif.Write
 
@@ -225,34 +258,11 @@ theorem C06_canonical_tokens (e : Env) (G : UInt64 → GText) (P : UInt64 → Bo
       (LexSeq.single e.cfg (lexTok_end e.cfg he.conv))
   exact tokens_all e.cfg hseq _ (by have := hseq.length_le; omega)
 
-/-- an environment meeting `EnvOK`: variables `_a`, `_aa`, …; the float 1.5 with its 'g' text -/
-def exEnv : Env := ⟨Cfg.ascii, fun _ => ['1', '.', '5'], fun v => '_' :: List.replicate (v + 1) 'a'⟩
-def exG : UInt64 → GText := fun _ => ⟨false, ['1'], ['5'], none⟩
-def exP : UInt64 → Bool := fun b => b == 0x3FF8000000000000
+-- non-vacuity of `EnvOK`: see `PrologVerif.C06Example.exEnv_ok` at the top of this file
+open PrologVerif.C06Example in
+example : EnvOK exEnv exG exP := exEnv_ok
 
-theorem exEnv_ok : EnvOK exEnv exG exP where
-  conv := fun _ => rfl
-  varShape := fun v => ⟨⟨List.replicate (v + 1) 'a', rfl, by
-    intro x hx
-    rw [List.mem_replicate] at hx
-    rw [hx.2]; rfl⟩, by simp [exEnv]⟩
-  varInj := by
-    intro v w h
-    have := congrArg List.length h
-    simp [exEnv] at this
-    exact this
-  fltWF := by
-    intro b _
-    refine ⟨by simp [exG], ?_, ?_, by simp [exG]⟩
-    · intro d hd; simp [exG] at hd; subst hd; exact ⟨1, by decide, rfl⟩
-    · intro d hd; simp [exG] at hd; subst hd; exact ⟨5, by decide, rfl⟩
-  fltText := fun _ _ => rfl
-  fltLaw := by
-    intro b hb
-    have hb' : b = 0x3FF8000000000000 := by simpa [exP] using hb
-    subst hb'
-    decide +kernel
-
+open PrologVerif.C06Example in
 -- non-vacuity: f('hello world', -(1), - 1, 1.5, X, [], X, '[]'(a)) under the default table
 example :
     let t : Term := .app "f" (.cons (.atom "hello world") (.cons (.app "-" (.cons (.int 1) .nil))
